@@ -63,7 +63,7 @@ theorem afterRecv_buf (D : Dec F E) (s : St) (e : End) (o : Out F E) (s' : St)
     simp only [Option.some.injEq, Prod.mk.injEq] at h
     rw [← h.2]
     cases D.kind f <;> exact ⟨d, rfl⟩
-  | error d e' =>
+  | error d exp e' =>
     rw [hdl] at h
     simp only [Option.some.injEq, Prod.mk.injEq] at h
     rw [← h.2]
@@ -212,7 +212,7 @@ theorem pollNextLoop_pending (D : Dec F E) (script : List Ev) :
             simp only [Prod.mk.injEq] at h
             obtain ⟨_, rfl, rfl⟩ := h
             exact ⟨[.chunk b], by simp, by simp [evBytes]; omega, fun _ _ => by simp⟩
-          | error d e' =>
+          | error d exp e' =>
             rw [hdl] at h
             simp only [Prod.mk.injEq] at h
             obtain ⟨_, rfl, rfl⟩ := h
